@@ -436,6 +436,66 @@ def run_narrow(c):
     return ck.result()
 
 
+
+# ------------------------------------------------------------------------------------------- every operand rescaled, collections
+@st.composite
+def allres_case(draw, tier="quick"):
+    d = draw(st.sampled_from([2, 3]))
+    k = draw(st.integers(1, 4))
+    return {"d": d, "P": [[draw(C.ints(6)) for _ in range(d)] + [1] for _ in range(k)], "Q": [[draw(C.ints(6)) for _ in range(d)] + [1] for _ in range(k)], "fp": [draw(mscale()) for _ in range(k)], "fq": [draw(mscale()) for _ in range(k)],
+            "single": draw(st.sampled_from([False, False, True]))}
+
+
+def run_allres(c):
+    """two point collections (or two points) whose elements ALL carry other representatives, every element its own factor:
+    p + q, p - q, dist, join, == and normalized_array agree with the results for the representatives with last coordinate 1
+    (held side by side: results of the two operands must not overwrite each other)"""
+    d = c["d"]
+    if d not in (2, 3) or len(c["P"]) != len(c["Q"]) or len(c["fp"]) != len(c["P"]) or len(c["fq"]) != len(c["Q"]) or not c["P"]:
+        raise Skip("malformed")
+    P0 = np.array(c["P"], float)
+    Q0 = np.array(c["Q"], float)
+    if np.any(P0[:, -1] == 0) or np.any(Q0[:, -1] == 0):
+        raise Skip("points at infinity: the sum of a direction and a point is covered by C19")
+    P0, Q0 = P0 / P0[:, -1:], Q0 / Q0[:, -1:]
+    if any(np.array_equal(a, b) for a, b in zip(P0, Q0)):
+        raise Skip("equal points")
+    fp = np.array([mvalue(x) for x in c["fp"]])[:, None]
+    fq = np.array([mvalue(x) for x in c["fq"]])[:, None]
+    if c["single"]:
+        mk = lambda A: G.Point(A[0])  # noqa: E731
+    else:
+        mk = lambda A: G.PointCollection(A)  # noqa: E731
+    p0, q0, p1, q1 = mk(P0), mk(Q0), mk(P0 * fp), mk(Q0 * fq)
+    ck = Checker()
+    tag = "single" if c["single"] else "collection"
+    for name, fn, kind in (("p+q", lambda a, b: a + b, "points"), ("p-q", lambda a, b: a - b, "points"), ("dist", lambda a, b: G.dist(a, b), "number"),
+                           ("join", lambda a, b: G.join(a, b), "lines"), ("normalized_arrays", lambda a, b: (a.normalized_array, b.normalized_array), "pair")):
+        site = f"all-rescaled:{name}:{tag}:d{d}"
+        r0, f = call(site, fn, p0, q0)
+        if f:
+            continue
+        r1, f = call(site + ":rescaled", fn, p1, q1)
+        if f:
+            ck.add(f)
+            continue
+        if kind == "number":
+            ck.check(np.allclose(np.asarray(r0, float), np.asarray(r1, float), rtol=1e-9, atol=1e-9), site, (np.asarray(r0).tolist(), np.asarray(r1).tolist()))
+        elif kind == "pair":
+            ck.check(all(np.allclose(x, y, atol=1e-12) for x, y in zip(r0, r1)) and np.allclose(r1[0], P0 if not c["single"] else P0[0], atol=1e-12) and np.allclose(r1[1], Q0 if not c["single"] else Q0[0], atol=1e-12), site,
+                     ([np.asarray(x).tolist() for x in r1], P0.tolist(), Q0.tolist()))
+        else:
+            a0, a1 = np.asarray(r0.array), np.asarray(r1.array)
+            nax = 1 if (kind == "points" or d == 2) else 2
+            ck.check(a0.shape == a1.shape and C.peq_all(a0, a1, nax, 1e-9), site, C.short((a0.tolist(), a1.tolist())))
+    e, f = call(f"all-rescaled:==:{tag}:d{d}", lambda: (p1 == p0, q1 == q0))
+    if f:
+        ck.add(f)
+    else:
+        ck.check(bool(np.all(e[0])) and bool(np.all(e[1])), f"all-rescaled:==:{tag}:d{d}", (np.asarray(e[0]).tolist(), np.asarray(e[1]).tolist()))
+    return ck.result()
+
+
 LAWS = [
     Law("rescale_argument", lambda tier: case(tier), run, nontrivial, labels, {"quick": 6000, "thorough": 150000},
         "op(args) vs op(args with one argument's homogeneous representative rescaled)", shard=400, mandatory=("negative-factor", "complex-factor")),
@@ -451,6 +511,9 @@ LAWS = [
     Law("narrow_integer_representatives", lambda tier: narrow_case(tier), run_narrow, lambda c: True, lambda c: [c["dt"], f"d{c['d']}", "meet" if c["dual"] else "join"],
         {"quick": 800, "thorough": 15000}, "integer coordinates stored as int16 / int32 / uint16 / uint8, one argument replaced by the largest listed multiple that fits the type", shard=300,
         mandatory=("int16", "int32", "uint16")),
+    Law("all_operands_rescaled", lambda tier: allres_case(tier), run_allres, lambda c: any(x[0] < 0 or x[1] != 0 or x[2] != 1 for x in c["fp"] + c["fq"]),
+        lambda c: ["single" if c["single"] else f"collection{len(c['P'])}", f"d{c['d']}"], {"quick": 700, "thorough": 12000},
+        "points / point collections with every element of both operands given by another representative: sum, difference, dist, join, ==, normalized_array", shard=300),
     Law("equality", lambda tier: eq_case(tier), run_eq, lambda c: True, lambda c: [f"{c['kind']}{c['d']}"], {"quick": 1500, "thorough": 30000},
         "== holds for every non-zero multiple, is reflexive and symmetric, and is false for objects that are clearly not multiples", shard=400),
 ]
